@@ -326,6 +326,42 @@ def _run_hyp(mod, st, acc, idx, nshards, seed):
     body()
 
 
+def hyp_task(strategy, run, n, key):
+    """Runs n Hypothesis examples of `strategy` inside an enumerated task (used to guarantee a fixed number of
+    generated cases per catalogue block).  Seeded from VERIF_SEED and `key`; returns a task-result dict."""
+    import hypothesis
+    from hypothesis import given, settings, HealthCheck, Phase
+    acc = Acc()
+    base = int(os.environ.get('VERIF_SEED', '1') or 1)
+    kh = int.from_bytes(hashlib.blake2b(str(key).encode(), digest_size=4).digest(), 'big')
+
+    @hypothesis.seed(base * 7919 + kh)
+    @settings(max_examples=n, database=None, deadline=None, derandomize=False, report_multiple_bugs=False,
+              phases=[Phase.generate], suppress_health_check=list(HealthCheck))
+    @given(strategy)
+    def body(case):
+        random.seed(0)
+        _reset_library_globals()
+        try:
+            with time_limit():
+                res = run(case)
+        except CaseTimeout:
+            res = discard('case_time_limit_inconclusive')
+        except HarnessError:
+            raise
+        except Exception as e:  # noqa
+            sig = exception_signature(e)
+            if sig is None:
+                raise
+            res = fail(sig, ''.join(traceback.format_exception(type(e), e, e.__traceback__))[-1800:])
+        acc.add_result(case, res)
+
+    body()
+    return {'evals': acc.evals, 'nt': len(acc.nt_hashes), 'cls': dict(acc.classes), 'discards': dict(acc.discards),
+            'fails': [{'sig': sg, 'msg': e['msg'], 'case': e['case'], 'count': e['count']} for sg, e in acc.fails.items()],
+            'samples': acc.samples[:1]}
+
+
 # --------------------------------------------------------------------------------------
 # shrinking (greedy, bounded, on the JSON case)
 
@@ -448,6 +484,7 @@ def main(argv=None):
     prop = args.prop.upper()
     _limit_memory()
     seed = args.seed if args.seed is not None else int(os.environ.get('VERIF_SEED', '1') or 1)
+    os.environ['VERIF_SEED'] = str(seed)
     modname = 'pbt.props.' + prop.lower()
     t0 = time.time()
     try:
